@@ -4,6 +4,7 @@ unchecked lookups) otherwise.  Output: NDJSON on stdout (UTF-8)."""
 
 PRE = r'''
 #include <cstdio>
+#include <cstring>
 #include <cstdint>
 #include <sstream>
 #include <string>
@@ -47,6 +48,16 @@ template<class E, size_t N> static void dump_enum(const char* T, const NameTab<E
 }
 template<class U, class T> static void keys(const char* k, const NameTab<U>& x){
   printf(",\"to_%%s\":%%s,\"from_%%s\":%%s", k, Internal::MapOfConversionsToStandard<U,T>.count(x.v)?"true":"false", k, Internal::MapOfConversionsFromStandard<U,T>.count(x.v)?"true":"false"); }
+// the run-time dispatch tables map every enumerator to ITS OWN conversion routine: converting through the table (public Convert) and calling
+// Internal::Conversion<U, u> directly must agree bit for bit, in both directions and all three numeric types
+template<class T> static bool sameb(T a, T b){ return std::memcmp(&a,&b, sizeof(T)>10? 10 : sizeof(T))==0; }
+template<class U, U u, class T> static void disp_one(bool& to_ok, bool& from_ok){
+  if(!Internal::MapOfConversionsToStandard<U,T>.count(u) || !Internal::MapOfConversionsFromStandard<U,T>.count(u)){ to_ok=false; from_ok=false; return; }
+  const T probes[4] = {(T)1, (T)-2.5L, (T)1000.125L, (T)0.3L};
+  for(T x: probes){ T a=x; Internal::Conversion<U,u>::ToStandard(a); T b=Convert(x, u, Standard<U>); if(u!=Standard<U> && !sameb(a,b)) to_ok=false;
+    T c=x; Internal::Conversion<U,u>::FromStandard(c); T d=Convert(x, Standard<U>, u); if(u!=Standard<U> && !sameb(c,d)) from_ok=false; } }
+template<class U, U u> static void dispatch(const char* T, const char* n){ bool to_ok=true, from_ok=true; disp_one<U,u,float>(to_ok,from_ok); disp_one<U,u,double>(to_ok,from_ok); disp_one<U,u,long double>(to_ok,from_ok);
+  printf("{\"e\":\"Dispatch\",\"type\":\"%%s\",\"name\":\"%%s\",\"to_ok\":%%s,\"from_ok\":%%s}\n", T, n, to_ok?"true":"false", from_ok?"true":"false"); }
 template<class U, size_t N> static void dump_unit(const char* T, const NameTab<U>(&tab)[N]){
   dump_enum(T, tab);
   printf("{\"e\":\"UnitType\",\"type\":\"%%s\",\"std\":%%s,\"dims\":", T, nameof(tab, Standard<U>).c_str()); dims_json(RelatedDimensions<U>);
@@ -134,6 +145,8 @@ def sources(units, others, quantities, nparts=8):
         out.append('    return; }')
         for u in us:
             out.append('  dump_unit("%s", TAB_%s);' % (u['type'], u['type']))
+            for n in u['names']:
+                out.append('  dispatch<Unit::%s, Unit::%s::%s>("%s", "%s");' % (u['type'], u['type'], n, u['type'], n))
         for o in os_:
             out.append('  dump_enum("%s", TAB_%s);' % (o['type'], o['type']))
         for name, q in qs:
